@@ -269,6 +269,57 @@ def rule_epsilon(ctx):
     return res.finish(1)
 
 
+def rule_epsilonform(ctx):
+    """When the pooling helper is handed the boost itself, what it returns has to be the pooled variance of the *unboosted*
+    old variance: as a function of the stored variance v and the boost e it depends on them through v - e only
+    (g(v, e) = g(v - e, 0)).  A boost taken off after the weighted combination leaves e * n_old / n_total in the result."""
+    from .formula import Formula, V
+    from .calc import Unsupported, Rat, Poly
+    res = RuleResult("R-C15-epsilonform", "Gaussian naive Bayes: a variance-pooling helper that receives the boost removes it from the old variance before pooling (the result depends on variance and boost through their difference only)")
+    F = ctx.facts()
+    fns = [f for f in fns_of(F, "linfa_bayes", "update_mean_variance")]
+    if not fns:
+        res.missing_anchor("update_mean_variance")
+    for fn in fns:
+        c = fn["crate"]
+        key = fn_key(fn)
+        res.instance(key)
+        ps = [b for p_ in fn["params"] for b in pat_bindings(p_)]
+        eps = [b for b in ps if "eps" in (b.get("name") or "") or "smooth" in (b.get("name") or "") or "boost" in (b.get("name") or "")]
+        if not eps:
+            res.ok()            # the helper never sees the boost: the pairing in fit_with decides (R-C15-epsilon)
+            continue
+        try:
+            fm = Formula(F)
+            fm.skip_early_returns = True
+            fm.opaque_any.update({"mean_axis": "mu_new", "var_axis": "var_new", "nrows": "n_new", "nsamples": "n_new"})
+            env = {}
+            for b in ps:
+                if b in eps:
+                    env[b["local"]] = V("scal", fm.atom("e"))
+                else:
+                    env[b["local"]] = V("elem", fm.atom("arg:" + b["name"], elem=True))
+            body = strip(fn["body"])
+            if body.get("k") != "Block" or body.get("e") is None:
+                raise Unsupported("body shape")
+            env2 = fm.block_env(c, body, env)
+            tail = peel_refs(body["e"])
+            if tail.get("k") != "Tup" or len(tail["es"]) != 2:
+                raise Unsupported("the helper does not end in a (mean, variance) pair")
+            g = fm.expr(c, tail["es"][1], env2).r
+            v = "field:sigma"
+            if v not in (g.num.atoms() | g.den.atoms()):
+                raise Unsupported("the stored variance does not reach the result")
+            h = fm.substitute(g, v, Poly.atom(v) - Poly.atom("e"), zero=("e",))
+            if fm.same(g, h):
+                res.ok()
+            else:
+                res.violate("%s : boost-removed-after-pooling" % key, "the pooled variance is not a function of (stored variance - boost): computed %s; with the boost taken off the old variance first it would be %s. The difference stays in every class that is updated and shrinks with the number of batches" % (g.key()[:200], h.key()[:200]), fn_loc(fn))
+        except (Unsupported, TypeError, KeyError, AttributeError) as e_:
+            res.undecided("%s : not-read" % key, "update_mean_variance is outside the vocabulary of the formula reader: %s (fail closed)" % e_, fn_loc(fn))
+    return res.finish(1)
+
+
 def rule_counts(ctx):
     """Additive smoothing enters the log-probabilities, not the stored counts - otherwise alpha would be accumulated once
     per batch and a history of b batches would be smoothed b times."""
@@ -912,7 +963,7 @@ def rules(tier):
     return [blockmean.make_offset_rule("R-C15-blockoffset", lambda f: f["d"]["krate"] in ("linfa_bayes", "linfa_ftrl"), "linfa-bayes and linfa-ftrl"),
             rule_everybatch, rule_pooledvar, rule_classes, rule_sigma0, layout.make_rule("R-C15-memorder", "raw memory-order buffers are used by position only behind a standard-layout test", lambda f: f["d"]["krate"] in ("linfa_bayes", "linfa_ftrl"), "linfa-bayes and linfa-ftrl"),
             rule_fitcounts, carry.make_fieldcopy_rule("R-C15-fieldcopy", {"linfa_bayes", "linfa_ftrl", "linfa_clustering"}, 0),
-            rule_batch, rule_carry_state, rule_epsilon, rule_counts, rule_kmeans, rule_ftrl,
+            rule_batch, rule_carry_state, rule_epsilon, rule_epsilonform, rule_counts, rule_kmeans, rule_ftrl,
             carry.make_clone_rule("R-C15-clone", {"linfa_bayes", "linfa_ftrl"}, 6), carry.make_setter_rule("R-C15-override", {"linfa_bayes", "linfa_ftrl"}, 4),
             precision.make_rule("R-C15-precision", lambda f: f["d"]["krate"] in ("linfa_bayes", "linfa_ftrl"), 30, "linfa-bayes and linfa-ftrl"),
             carry.make_accessor_rule("R-C15-accessor", {"linfa_bayes", "linfa_ftrl"}, 4), carry.make_ctor_rule("R-C15-ctor", {"linfa_bayes", "linfa_ftrl"}, 2)]
